@@ -32,7 +32,7 @@ func runC29(c *core.Ctx) error {
 		return err
 	}
 	defer l.Close()
-	bases, err := chooseBases(c, l, c.Pick(3, 9), c.Pick(2, 6), c.Pick(150, 400))
+	bases, err := chooseBases(c, l, c.Pick(3, 9), c.Pick(2, 14), c.Pick(150, 400))
 	if err != nil {
 		return err
 	}
@@ -105,7 +105,7 @@ func runC29(c *core.Ctx) error {
 	for i := range all {
 		all[i] = i + 1
 	}
-	if err := run(bases, all, 2, float64(c.Pick(10, 2))/100, time.Duration(c.Pick(4, 12))*time.Minute); err != nil {
+	if err := run(bases, all, 2, float64(c.Pick(10, 5))/100, time.Duration(c.Pick(4, 12))*time.Minute); err != nil {
 		return err
 	}
 	if bySeq["identity"] != len(bases) {
@@ -113,13 +113,16 @@ func runC29(c *core.Ctx) error {
 	}
 	depth := 2
 	if c.Thorough() {
-		// sequences of three edits, exhaustively, over the two bases with the smallest edit spaces
+		// sequences of three edits, exhaustively, over the four bases with the smallest edit spaces
 		depth = 3
 		order := append([]int{}, all...)
 		sort.Slice(order, func(a, b int) bool { return singles[order[a]-1] < singles[order[b]-1] })
-		sub := []NamedBase{bases[order[0]-1], bases[order[1]-1]}
-		bySeq["identity"] -= 2
-		if err := run(sub, order[:2], 3, 0.01, 12*time.Minute); err != nil {
+		var sub []NamedBase
+		for _, k := range order[:4] {
+			sub = append(sub, bases[k-1])
+		}
+		bySeq["identity"] -= 4
+		if err := run(sub, order[:4], 3, 0.03, 12*time.Minute); err != nil {
 			return err
 		}
 	}
